@@ -4,6 +4,7 @@ CONSTANTS
   MaxKK = 3
   MaxRd = 1
   NQ = 0
+  MaxPolls = 1
   MaxLatch = 0
   FileSteps = TRUE
   QKinds = {}
